@@ -364,23 +364,54 @@ func C04(c *Ctx) {
 	}
 	c.R.Check(okSet && consts["message"], "C04-R3", "core: branching type constants", c.P.Pos(consider.Pos()), "compared constants: "+strings.Join(cl, ","), "branching type is compared with a constant outside {\"\", \"message\", \"bindings\"}: "+strings.Join(cl, ","))
 
-	// ------------------------------------------------------------ R4 (Step)
-	var actionCall *ssa.Call
-	ssau.Instrs(step, func(in ssa.Instruction) {
-		if ci, ok := in.(*ssa.Call); ok && ci.Common().IsInvoke() && ci.Common().Method.Name() == "Exec" {
-			if _, is := isFieldLoad(ci.Common().Value, "core", "Node", "Action"); is {
-				actionCall = ci
+	// ------------------------------------------------------------ R4 (Step, and the helper it may run the action in)
+	var stepFns []*ssa.Function
+	{
+		skip := map[*ssa.Function]bool{}
+		for _, f := range pkgClosure(consider) {
+			skip[f] = true
+		}
+		for _, f := range pkgClosure(step) {
+			if prog.PkgOf(f) == "core" && !skip[f] {
+				stepFns = append(stepFns, f)
 			}
 		}
-	})
-	if actionCall == nil {
+	}
+	var actionCall *ssa.Call
+	for _, f := range stepFns {
+		ssau.Instrs(f, func(in ssa.Instruction) {
+			if ci, ok := in.(*ssa.Call); ok && ci.Common().IsInvoke() && ci.Common().Method.Name() == "Exec" {
+				all := true
+				ds := deepDefs(ci.Common().Value, stepFns)
+				for _, d := range ds {
+					if _, is := isFieldLoad(d, "core", "Node", "Action"); !is {
+						all = false
+					}
+				}
+				if all && len(ds) > 0 {
+					actionCall = ci
+				}
+			}
+		})
+	}
+	var actionSite ssa.Instruction
+	if actionCall != nil {
+		actionSite = siteInFn(step, actionCall)
+	}
+	if actionCall == nil || actionSite == nil {
 		c.R.Violate("C04-R4", "Step: executes the node's action", c.P.Pos(step.Pos()), "no invoke of Node.Action.Exec in Step")
 	} else {
 		// runs first
-		c.R.Check(flow.Reachable(actionCall.Block(), considerCall.Block(), nil) && !flow.Reachable(considerCall.Block(), actionCall.Block(), nil), "C04-R4", "Step: action before branches", c.pos(actionCall), "the action call precedes branch evaluation", "branch evaluation can precede the action")
+		c.R.Check(flow.Reachable(actionSite.Block(), considerCall.Block(), nil) && !flow.Reachable(considerCall.Block(), actionSite.Block(), nil), "C04-R4", "Step: action before branches", c.pos(actionCall), "the action call precedes branch evaluation", "branch evaluation can precede the action")
 		// action gets the state's bindings
-		_, isStBs := isFieldLoad(actionCall.Common().Args[1], "core", "State", "Bs")
-		c.R.Check(isStBs, "C04-R4", "Step: action receives the current bindings", c.pos(actionCall), "State.Bs of the given state", "the action is not given the current state's bindings")
+		isStBs := true
+		bl := deepDefs(actionCall.Common().Args[1], stepFns)
+		for _, d := range bl {
+			if _, is := isFieldLoad(d, "core", "State", "Bs"); !is {
+				isStBs = false
+			}
+		}
+		c.R.Check(isStBs && len(bl) > 0, "C04-R4", "Step: action receives the current bindings", c.pos(actionCall), "State.Bs of the given state", "the action is not given the current state's bindings")
 		var exe, aerr ssa.Value
 		for _, r := range ssau.Referrers(actionCall) {
 			if ex, ok := r.(*ssa.Extract); ok {
@@ -394,26 +425,23 @@ func C04(c *Ctx) {
 		bsArg := considerCall.Common().Args[2]
 		okRepl := false
 		var why []string
-		if p, ok := bsArg.(*ssa.Phi); ok {
-			for i, e := range p.Edges {
-				facts := flow.EdgeFacts(p.Block().Preds[i], p.Block())
-				succ := false
-				for _, f := range facts {
-					if b, isB := f.Cond.(*ssa.BinOp); isB && b.X == aerr && ssau.IsNilConst(b.Y) {
-						if (b.Op == token.EQL && f.True) || (b.Op == token.NEQ && !f.True) {
-							succ = true
-						}
+		for _, src := range sourcesWithFacts(bsArg, stepFns) {
+			succ := false
+			for _, f := range flow.Expand(src.facts) {
+				if b, isB := f.Cond.(*ssa.BinOp); isB && b.X == aerr && ssau.IsNilConst(b.Y) {
+					if (b.Op == token.EQL && f.True) || (b.Op == token.NEQ && !f.True) {
+						succ = true
 					}
 				}
-				if succ {
-					base, is := isFieldLoad(e, "core", "Execution", "Bs")
-					if is && base == exe {
-						okRepl = true
-					} else {
-						why = append(why, "on the action's success edge the bindings are "+e.Name()+", not the execution's Bs")
-						okRepl = false
-						break
-					}
+			}
+			if succ {
+				base, is := isFieldLoad(src.leaf, "core", "Execution", "Bs")
+				if is && base == exe {
+					okRepl = true
+				} else {
+					why = append(why, "on the action's success edge the bindings are "+src.leaf.Name()+", not the execution's Bs")
+					okRepl = false
+					break
 				}
 			}
 		}
@@ -428,6 +456,7 @@ func C04(c *Ctx) {
 		}
 	}
 	var matchCall, guardCall *ssa.Call
+	matchArg0 := 1 // index of the pattern among the call's operands (an invoke has no receiver operand)
 	for _, f := range closure {
 		ssau.Instrs(f, func(in ssa.Instruction) {
 			ci, ok := in.(*ssa.Call)
@@ -436,6 +465,16 @@ func C04(c *Ctx) {
 			}
 			if sc := ci.Common().StaticCallee(); sc != nil && sc.Name() == "Match" && prog.PkgOf(sc) == "match" {
 				matchCall = ci
+				matchArg0 = 1
+			}
+			if ci.Common().IsInvoke() && ci.Common().Method.Name() == "Match" {
+				// the matcher handed through an interface: resolved by the call graph
+				for _, cal := range c.P.Callees(ci) {
+					if cal.Name() == "Match" && prog.PkgOf(cal) == "match" {
+						matchCall = ci
+						matchArg0 = 0
+					}
+				}
 			}
 			if ci.Common().IsInvoke() && ci.Common().Method.Name() == "Exec" {
 				for _, d := range deepDefs(ci.Common().Value, closure) {
@@ -494,9 +533,9 @@ func C04(c *Ctx) {
 		return true
 	}
 	// matcher arguments: (matcher, b.Pattern, against, bs)
-	patOK := allLeaves(matchCall.Common().Args[1], func(d ssa.Value) bool { _, is := isFieldLoad(d, "core", "Branch", "Pattern"); return is })
-	agOK := allLeaves(matchCall.Common().Args[2], func(d ssa.Value) bool { return d == ssa.Value(ifaceParam(try)) })
-	bsOK := allLeaves(matchCall.Common().Args[3], func(d ssa.Value) bool {
+	patOK := allLeaves(matchCall.Common().Args[matchArg0], func(d ssa.Value) bool { _, is := isFieldLoad(d, "core", "Branch", "Pattern"); return is })
+	agOK := allLeaves(matchCall.Common().Args[matchArg0+1], func(d ssa.Value) bool { return d == ssa.Value(ifaceParam(try)) })
+	bsOK := allLeaves(matchCall.Common().Args[matchArg0+2], func(d ssa.Value) bool {
 		pr, isP := d.(*ssa.Parameter)
 		return isP && pr.Parent() == try && ssau.TypeIs(pr.Type(), prog.Abs("match"), "Bindings")
 	})
